@@ -35,7 +35,93 @@ def stepText (fields : List String) : Option String :=
       | some kv => if stmt.contains '\n' then pure "err:newline" else pure (encodeText (makeLine stmt year kv.2))
   | ["merge", ls] => do pure (encodeList (mergeLines (← decodeList ls)))
   | ["extract", t] => do pure (showExtracted (extractRaw (← decodeText t)))
+  | ["c20hyp", key, yform, h] => do
+      -- do the hypotheses of C20_make_parse_partial hold for this (prefix, year form, holder)?
+      let h ← decodeText h
+      let kv ← Generated.copyrightPrefixes.find? (·.1 == key)
+      let shape ← Spec.prefixShapes.find? (·.1 == kv.2)
+      let y : Spec.YearForm ←
+        match yform.splitOn "/" with
+        | ["none"] => some Spec.YearForm.none
+        | ["single", a] => do pure (Spec.YearForm.single (← decodeText a))
+        | ["range", a, s1, s2, b] => do pure (Spec.YearForm.range (← decodeText a) (s1 == "1") (s2 == "1") (← decodeText b))
+        | _ => none
+      let line := Spec.builtLine shape.1 y h
+      let earlier := match shape.2.1 with
+        | .spdx => true
+        | .word => (searchPat Generated.endRe .spdx line).isNone
+        | .sign => (searchPat Generated.endRe .spdx line).isNone && (searchPat Generated.endRe .word line).isNone
+      pure (encodeBool (y.wf && Spec.WFHolder Generated.endRe h && earlier && (searchLine h).isNone) ++ "|" ++ encodeText line)
   | ["parseyear", y] => do pure (encodeList (parseYear (← decOptText y)))
+  | _ => none
+
+end Ops
+
+namespace Ops
+open Model Py
+
+def findStyle (name : String) : Option Generated.Style := Generated.styles.find? (·.name == name)
+
+def showExcept : Except CommentErr Text → String
+  | .ok t => "ok:" ++ encodeText t
+  | .error .create => "err:create"
+  | .error .parse => "err:parse"
+
+def mkCfg (style : Generated.Style) (flags : String) (render : RInfo → Text) (bad : List Text) : HdrCfg :=
+  let f := flags.toList
+  { style := style, render := render, commented := f.getD 0 '0' == '1', forceMulti := f.getD 1 '0' == '1',
+    merge := f.getD 2 '0' == '1', parses := fun x => !bad.contains x, normLic := id }
+
+/-- the RInfo `create_header` hands to the template for this invocation (none when no header is rendered) -/
+def hdrInfo (c : HdrCfg) (replace skipExisting : Bool) (info : Extracted) (text : Text) : Option RInfo :=
+  if skipExisting && containsReuseInfo c.parses text then none
+  else
+    let norm := Py.replace text (detectLineEnding text) ['\n']
+    let header : Text :=
+      if replace then
+        let (before, header, after) :=
+          match findFirstSpdxComment c norm with
+          | some x => x
+          | none => ([], [], norm)
+        (moveShebang c.style.shebangs before header after).2.1
+      else []
+    if header.isEmpty then some ⟨sortTexts info.cpr, sortTexts info.con, sortTexts info.lic⟩
+    else
+      let existing := extractRaw header
+      if !(existing.lic.all c.parses) then none
+      else
+        let cprUnion := unionTexts info.cpr existing.cpr
+        let cpr := if c.merge then mergeLines cprUnion else cprUnion
+        some ⟨sortTexts cpr, sortTexts (unionTexts existing.con info.con), sortTexts (dedup (existing.lic ++ info.lic))⟩
+
+def stepHeader (fields : List String) : Option String :=
+  match fields with
+  | ["createcomment", style, force, t] => do
+      pure (showExcept (createComment (← findStyle style) (← decodeText t) (← decodeBool force)))
+  | ["commentat", style, t] => do
+      pure (showExcept (commentAtFirst (← findStyle style) (← decodeText t)))
+  | ["defaultrender", cpr, con, lic] => do
+      pure (encodeText (defaultRender ⟨← decodeList cpr, ← decodeList con, ← decodeList lic⟩))
+  | ["hdrinfo", style, flags, cpr, con, lic, bad, t] => do
+      let c := mkCfg (← findStyle style) flags defaultRender (← decodeList bad)
+      let f := flags.toList
+      match hdrInfo c (f.getD 3 '0' == '1') (f.getD 4 '0' == '1') ⟨← decodeList lic, ← decodeList cpr, ← decodeList con⟩ (← decodeText t) with
+      | none => pure "none"
+      | some i => pure (encodeList i.cpr ++ "|" ++ encodeList i.con ++ "|" ++ encodeList i.lic)
+  | ["annotate", style, flags, tmpl, cpr, con, lic, bad, t] => do
+      let render : RInfo → Text ←
+        if tmpl == "default" then pure defaultRender
+        else if tmpl.startsWith "rendered:" then do
+          let r ← decodeText (tmpl.drop 9).toString
+          pure (fun _ => r)
+        else none
+      let c := mkCfg (← findStyle style) flags render (← decodeList bad)
+      let f := flags.toList
+      match annotateText c (f.getD 3 '0' == '1') (f.getD 4 '0' == '1') ⟨← decodeList lic, ← decodeList cpr, ← decodeList con⟩ (← decodeText t) with
+      | .written t => pure ("W:" ++ encodeText t)
+      | .skipped => pure "S"
+      | .failed .commentCreate => pure "F:commentCreate"
+      | .failed .missingInfo => pure "F:missingInfo"
   | _ => none
 
 end Ops
